@@ -54,16 +54,67 @@ FAULTS_CCID = [
     "ccid-short", "ccid-type", "ccid-len", "apdu-short", "sw-error", "sw-only", "garbled-all",
     "wrongcode", "wrongtfi", "nostatus",
 ]
+# serial links only: pyserial reports a failed os.read()/os.write() on the port as serial.SerialException, an
+# IOError *without* errno, and nfc.clf.transport.TTY lets it through (it maps only the write time-out, to EIO)
+FAULTS_SERIAL = ["noerrno@ack", "noerrno@rsp", "noerrno@write"]
+
+# what the real transports (nfc/clf/transport.py) can raise, by phase of Chipset.command():
+#   USB.read   ETIMEDOUT (nothing arrived within the time-out) | ENODEV | EIO
+#   USB.write  ENODEV | EIO          (ETIMEDOUT only with a write time-out; the drivers write with timeout=0 = none)
+#   TTY.read   ETIMEDOUT (no octet within the time-out) | EIO (short frame) | no errno (SerialException)
+#   TTY.write  EIO (SerialTimeoutException) | no errno (SerialException)
+ERRNO_OF = {"eio": errno.EIO, "enodev": errno.ENODEV, "etimedout": errno.ETIMEDOUT, "noerrno": None}
+
+
+def faults_for(link):
+    """the named host-link faults of a link type"""
+    if link == "ccid":
+        return list(FAULTS_CCID)
+    return FAULTS_FRAME + (FAULTS_SERIAL if link in ("tty", "arygon") else [])
+
+
+def fault_phase(link, name):
+    """'write' | 'ack' | 'rsp' for the faults where the transport itself fails while the host command is being
+    delivered or its answer fetched, i.e. where the harness *knows* the host link is what failed:
+      write  transport.write() raised: the chip never saw the command
+      ack    nothing / an error instead of the ACK frame (frame links): the chip never acknowledged the command
+      rsp    transport.read() raised something other than a time-out after the ACK (frame links) / instead of the
+             answer (CCID)
+    None for everything else (a time-out after the ACK is indistinguishable from RF silence; garbled or cut frames
+    and unexpected contents are judged by the coarse clause only)"""
+    if name.endswith("@write"):
+        return "write"
+    if link == "ccid":
+        return "rsp" if name in ("eio", "enodev") else None
+    if name == "noack" or name.endswith("@ack"):
+        return "ack"
+    if name.endswith("@rsp") and name.split("@")[0] in ("eio", "enodev", "noerrno"):
+        return "rsp"
+    return None
+
+
+def link_error(code):
+    if code is None:
+        return IOError("simulated serial port failure (no errno)")
+    return IOError(code, os.strerror(code))
 
 # host-link faults with a length: what the host reads is the beginning of what the chip (reader) sent --------
 FAULTS_LEN_FRAME = [
     "trunc",            # ACK, then the first n octets of the response frame          n = 1 .. len(frame)-1
     "ack-trunc",        # the first n octets of the ACK frame, then the response      n = 1 .. len(ACK)-1
+    "surplus",          # ACK, then a *well formed* response frame (checksums right) whose payload is followed by n
+                        # more octets than the command's response layout has          n in SURPLUS_LENGTHS
 ]
 FAULTS_LEN_CCID = [
     "trunc",            # the first n octets of the RDR_to_PC_DataBlock message       n = 1 .. len(message)-1
     "apdu-trunc",       # well formed CCID message whose abData is cut to n octets    n = 0 .. len(abData)-1
+    "surplus",          # well formed CCID message / pseudo-APDU, n more payload octets before the status word
 ]
+SURPLUS_LENGTHS = (1, 2, 5)
+
+
+def surplus_octets(n):
+    return bytes((0xA5 + 17 * i) & 0xFF for i in range(n))
 
 
 def len_actions(link, rsp):
@@ -75,6 +126,7 @@ def len_actions(link, rsp):
         acts += [["fault", "apdu-trunc", n] for n in range(0, total - hdr)]
     else:
         acts += [["fault", "ack-trunc", n] for n in range(1, len(ACK))]
+    acts += [["fault", "surplus", n] for n in SURPLUS_LENGTHS]
     return acts
 
 
@@ -405,10 +457,10 @@ class ChipsetSim(object):
 
     def _command(self, cmd, params):
         k, act = self._next_k(cmd, params)
-        if act is not None and act[0] == "fault" and act[1] in ("eio@write", "enodev@write"):
+        if act is not None and act[0] == "fault" and len(act) == 2 and act[1].endswith("@write"):
             self.applied.append((k, list(act), cmd))
             self.q = []
-            raise IOError(errno.EIO if act[1].startswith("eio") else errno.ENODEV, "simulated write fault")
+            raise link_error(ERRNO_OF[act[1].split("@")[0]])      # the chip never sees the command
         if self.responder is not None:
             self.q = list(self.responder(cmd, params))
             return
@@ -456,6 +508,13 @@ class ChipsetSim(object):
             return [ACK, rsp[:n]]
         if name == "ack-trunc" and 0 < n < len(ACK):
             return [ACK[:n], rsp]
+        if name == "surplus" and n > 0:
+            d = F.split(rsp, 1)
+            if d["kind"] != "info" or d["clauses"] or d["tfi"] != 0xD5:
+                return None                        # an error frame has no payload to extend
+            if not d["extended"] and len(d["data"]) + n > 255:
+                return None                        # keep the frame type (the PN531 has no extended frames)
+            return [ACK, F.build_frame(bytes(d["data"]) + surplus_octets(n))]
         return None
 
     def _fault_frames(self, name, cmd, rsp):
@@ -466,10 +525,10 @@ class ChipsetSim(object):
             return []
         if name == "ack-silence":
             return [ACK]
-        if name in ("eio@ack", "enodev@ack"):
-            return [E(errno.EIO if name.startswith("eio") else errno.ENODEV)]
-        if name in ("eio@rsp", "enodev@rsp"):
-            return [ACK, E(errno.EIO if name.startswith("eio") else errno.ENODEV)]
+        if name.endswith("@ack"):
+            return [E(ERRNO_OF[name.split("@")[0]])]
+        if name.endswith("@rsp"):
+            return [ACK, E(ERRNO_OF[name.split("@")[0]])]
         if name == "short3":
             return [ACK, rsp[:3]]
         if name == "short5":
@@ -536,10 +595,10 @@ class ChipsetSim(object):
             self.q = []
             return
         k, act = self._next_k(cmd, params)
-        if act is not None and act[0] == "fault" and act[1] in ("eio@write", "enodev@write"):
+        if act is not None and act[0] == "fault" and len(act) == 2 and act[1].endswith("@write"):
             self.applied.append((k, list(act), cmd))
             self.q = []
-            raise IOError(errno.EIO if act[1].startswith("eio") else errno.ENODEV, "simulated write fault")
+            raise link_error(ERRNO_OF[act[1].split("@")[0]])      # the chip never sees the command
         if self.responder is not None:
             self.q = list(self.responder(cmd, params))
             return
@@ -569,6 +628,8 @@ class ChipsetSim(object):
                 self.q = [good[:n]]
             elif name == "apdu-trunc" and 0 <= n < len(body):
                 self.q = [D(body[:n])]
+            elif name == "surplus" and n > 0 and len(body) >= 4 and body[0] == 0xD5:
+                self.q = [D(body[:-2] + surplus_octets(n) + body[-2:])]
             else:                                  # nothing to cut at that length: the command runs undisturbed
                 self.not_applicable += 1
                 self.q = [good]
@@ -611,7 +672,7 @@ class ChipsetSim(object):
             raise IOError(errno.ETIMEDOUT, os.strerror(errno.ETIMEDOUT))
         item = self.q.pop(0)
         if isinstance(item, tuple):
-            raise IOError(item[1], os.strerror(item[1]))
+            raise link_error(item[1])
         if self.clock is not None:
             self.clock.advance(0.0005)
         return bytearray(item)
@@ -691,11 +752,29 @@ class ChipsetSim(object):
             r = fld.exchange(p[1:])
             return (b"\x00" + r) if r is not None else b"\x01"
         if cmd == 0x42:
+            # 106 kbps Type A framing: the CIU appends CRC_A to what it transmits while CIU_TxMode.TxCRCEn (bit 7) is
+            # set, and verifies + strips CRC_A of what it receives while CIU_RxMode.RxCRCEn (bit 7) is set; with
+            # the bit clear the octets go to / come from the air as they are.
+            typea = fld.kind in ("t2t", "t4a")
+            if typea and not st.regs.get(R_TXMODE, 0x80) & 0x80:
+                if len(p) < 3 or not refcrc.check_crc_a(p):
+                    fld.log_tx(p)
+                    return b"\x01"                                       # no tag answers a frame with a wrong CRC_A
+                p = p[:-2]
             r = fld.exchange(p)
             if r is None:
                 return b"\x01"
-            if fld.kind == "t2t" and not st.regs.get(R_RXMODE, 0x80) & 0x80 and len(r) > 1 and fld.rsp_override is None:
-                r = refcrc.append_crc_a(r)                               # RxCRCEn off: the CRC bytes stay in the data
+            if typea:
+                if fld.rsp_override is not None:
+                    air = bytes(r)                                       # the octets on air as the monitor chose them
+                else:
+                    air = refcrc.append_crc_a(r) if len(r) > 1 else r    # the 4 bit ACK/NAK carries no CRC
+                if st.regs.get(R_RXMODE, 0x80) & 0x80:
+                    if len(air) < 3 or not refcrc.check_crc_a(air):
+                        return b"\x02"                                   # "a CRC error has been detected by the CIU"
+                    r = air[:-2]
+                else:
+                    r = air                                              # RxCRCEn off: the CRC bytes stay in the data
             return b"\x00" + r
         if cmd in (0x44, 0x52, 0x54, 0x4E, 0x60):
             return b"\x00"
@@ -970,7 +1049,7 @@ class SimSerialPort(object):
                 if self.buf:
                     break                       # deliver what arrived before the port failed
                 q.pop(0)
-                raise IOError(item[1], os.strerror(item[1]))
+                raise link_error(item[1])
             self.buf += q.pop(0)
         if len(self.buf) < size and self.sim.clock is not None:
             self.sim.clock.advance(self.timeout or 0)
@@ -1145,11 +1224,27 @@ def selftest():
         n += talk(sim, CMD("06 6302 6303 6305"), [ACK, reg("000000")])
         n += talk(sim, CMD("32 020a0b0f"), [ACK, RSP("33")])
         sim.st.field.mem[:16] = bytes(range(16))
+        sim.st.regs[R_TXMODE] = 0x80          # (the transcript's register values are placeholders; TxCRCEn is on in a chip)
         n += talk(sim, CMD("42 3000"), [ACK, RSP("43 00 000102030405060708090a0b0c0d0e0f 77f5")])
         sim.st.field.muted = True
         n += talk(sim, CMD("42 3000"), [ACK, RSP("43 01")])
         n += talk(sim, CMD("4A 0100"), [ACK, RSP("4B 00")])
         n += talk(sim, CMD("06 6339"), [ACK, reg("26")])
+    # register controlled CRC_A handling of InCommunicateThru (CIU_TxMode.TxCRCEn / CIU_RxMode.RxCRCEn, bit 7 each)
+    sim = ChipsetSim("pn533", "usb")
+    sim.st.field = Field("t2t", sel_res=0x08)
+    n += talk(sim, CMD("4A 0100"), [ACK, RSP("4B 0101004408070416c6c2d73881")])
+    sim.st.field.mem[:16] = bytes(range(16))
+    assert sim.st.regs[R_RXMODE] & 0x80 and sim.st.regs[R_TXMODE] & 0x80
+    n += talk(sim, CMD("42 3000"), [ACK, RSP("43 00 000102030405060708090a0b0c0d0e0f")])         # verified and stripped
+    sim.st.field.rsp_override = h("000102030405060708090a0b0c0d0e0f 77f4")
+    n += talk(sim, CMD("42 3000"), [ACK, RSP("43 02")])                                          # CRC error status
+    sim.st.regs[R_RXMODE] = 0x00
+    n += talk(sim, CMD("42 3000"), [ACK, RSP("43 00 000102030405060708090a0b0c0d0e0f 77f4")])    # as received
+    sim.st.field.rsp_override = None
+    sim.st.regs[R_TXMODE] = 0x00
+    n += talk(sim, CMD("42 3000"), [ACK, RSP("43 01")])                                          # sent without CRC_A
+    n += talk(sim, CMD("42 300002a8"), [ACK, RSP("43 00 000102030405060708090a0b0c0d0e0f 77f5")])
     # Type 1 Tag discovery
     sim = ChipsetSim("pn533", "usb")
     sim.st.field = Field("t1t")
